@@ -593,11 +593,13 @@ pub struct Gen {
     /// streams per key index
     pub streams_per_key: usize,
     pub op_counter: u64,
+    /// restrict generated transactions to this key index
+    pub only_key: Option<usize>,
 }
 
 impl Gen {
     pub fn new(rng: &mut Rng, cfg: &StoreCfg, keys_per_partition: usize, streams_per_key: usize) -> Gen {
-        Gen { ids: Ids::new(), keys: make_keys(rng, cfg.partitions, keys_per_partition), streams_per_key, op_counter: 0 }
+        Gen { ids: Ids::new(), keys: make_keys(rng, cfg.partitions, keys_per_partition), streams_per_key, op_counter: 0, only_key: None }
     }
     pub fn stream_name(&self, key_idx: usize, k: usize) -> String {
         format!("st-{key_idx}-{k}")
@@ -643,7 +645,7 @@ impl Gen {
     /// A well-formed transaction against the current model state.
     pub fn txn(&mut self, rng: &mut Rng, model: &Model, o: &GenOpts) -> MTxn {
         self.op_counter += 1;
-        let ki = rng.usize_below(self.keys.len());
+        let ki = self.only_key.unwrap_or_else(|| rng.usize_below(self.keys.len()));
         let (pk, pid) = self.keys[ki];
         let hash = hash_of_key(pk);
         let n = match rng.below(10) { 0..=4 => 1, 5..=7 => 2, 8 => 3, _ => 1 + rng.usize_below(o.max_events.max(1)) }.min(o.max_events.max(1));
